@@ -20,7 +20,7 @@ ASSUMPTIONS = [
     "PAE is injective (C15)",
     "contract table for the aws-lc FFI wrapper module (lc::*)",
 ]
-FLOORS = {"R02.1": 12, "R02.2": 12, "R02.3": 12, "R02.4": 12, "R02.5": 12, "R02.6": 12, "R02.7": 1}
+FLOORS = {"R02.1": 12, "R02.2": 12, "R02.3": 12, "R02.4": 12, "R02.5": 12, "R02.6": 12, "R02.7": 1, "R02.8": 2}
 
 HAS_AAD = {"v1": False, "v2": False, "v3": True, "v3-aws-lc": True, "v4": True, "v4-sodium": True}
 VHEADER = {"v1": b"v1", "v2": b"v2", "v3": b"v3", "v3-aws-lc": b"v3", "v4": b"v4", "v4-sodium": b"v4"}
@@ -250,3 +250,15 @@ def run(ctx):
         for purpose in ("Local", "Public"):
             check_backend(ctx, be, purpose)
     check_core_plumbing(ctx)
+    # R02.8 (shared with C09 R09.1/R09.2 for the token text form): the bytes that are authenticated are exactly what the text
+    # says — FromStr strips only its own constants and hands the whole remainder to the strict base64 decoder (no trim, no slicing)
+    import c09
+    class Scratch:
+        def __init__(s): s.findings = []; s.world = ctx.world; s.crates = ctx.crates; s.analysed = {"functions": 0, "paths": 0, "call_sites": 0}; s.notes = []; s.tier = ctx.tier
+        def add(s, rule, k, ok, detail="", site=None, facts=None): s.findings.append((rule, k, ok, detail, site))
+        def sample(s, x): pass
+    sc = Scratch()
+    c09.run(sc)
+    for (rule, k, ok, detail, site) in sc.findings:
+        if k in ("C09/mirror/SealedToken", "C09/remainder/SealedToken"):
+            ctx.add("R02.8", "C02/R02.8/" + k.split("/", 1)[1], ok, detail, site)
